@@ -116,6 +116,11 @@ def _case(draw):
         a[0] = 1.0
         npos = 1
     bs = draw(st.integers(1, npos))
+    n_valid = int(np.sum(~np.isnan(np.array(a, dtype=float))))
+    if n_valid > npos and draw(st.integers(0, 4)) == 0:
+        # more samples requested than entries of positive weight: the call
+        # may be rejected, but must never hand out an entry of zero weight
+        bs = draw(st.integers(npos + 1, n_valid + 1))
     return dict(fn=fn, a=a, batch_size=bs, seed=seed,
                 return_utilities=draw(st.booleans()))
 
@@ -269,6 +274,12 @@ def _check_simple_batch(case):
             viol.append(Violation(comp, "infinity_not_rejected", "inf_input",
                                   f"got {r!r}"))
         return Outcome(viol, False, labels)
+    if (not ok and method == "proportional" and isinstance(r, ValueError)
+            and min(bs, int(np.sum(~np.isnan(a)))) > int(np.sum(a > 0))):
+        # fewer entries of positive weight than requested: "never selects an
+        # entry of zero weight" cannot be met together with the batch length,
+        # numpy's rejection is accepted
+        return Outcome([], False, labels + ["more_than_positive_rejected"])
     if not ok:
         return Outcome([exc_violation(comp, r, "valid_input", "call")],
                        False, labels)
